@@ -52,7 +52,12 @@ type NodeSpec struct {
 	Has                 bool
 	CPU, Mem, Pods, GPU int64
 }
-type JobSpec struct{ ID, Queue, Min int64 }
+type JobSpec struct {
+	ID, Queue, Min int64
+	RoleMin        [][2]int64 // (role, minimum): PodGroup.Spec.MinTaskMember
+}
+
+func RoleName(r int64) string { return fmt.Sprintf("r%d", r) }
 type TaskSpec struct {
 	ID, Job, Role, Prio int64
 	CPU, Mem, GPU       int64
